@@ -16,7 +16,7 @@ ORIG_SRC = r'''def get_nn_dist(kdt, query_point, dist_max, dist_min, active_poin
 
     if rp_idx.size == 0:
         return -1, []
-    elif dist_min > 0:
+    elif dist_min >= 0:  # the interval is open at its lower end also for dist_min == 0 (a site at distance 0 is not a neighbour)
         rp_idx = rp_idx[rp_dist > dist_min]
         rp_dist = rp_dist[rp_dist > dist_min]
 
@@ -581,8 +581,8 @@ def sweep_nn(iterations, seed):
         if not same or type(got[0]) is not type(ref[0]) or type(got[1]) is not type(ref[1]):
             fail(f"get_nn_dist differs from reference: {got} vs {ref}")
         d = np.sqrt(((pts - q) ** 2).sum(axis=1))
-        ok = (active == tv) & (d <= dmax + 1e-12) & ((d > dmin) if dmin > 0 else True)
-        ok_strict = (active == tv) & (d <= dmax - 1e-9) & ((d > dmin + 1e-9) if dmin > 0 else True)
+        ok = (active == tv) & (d <= dmax + 1e-12) & (d > dmin)
+        ok_strict = (active == tv) & (d <= dmax - 1e-9) & (d > dmin + 1e-9)
         if got[0] == -1:
             if ok_strict.any():
                 fail(f"get_nn_dist missed a point: {np.flatnonzero(ok_strict)} d={d[ok_strict]}")
